@@ -4,13 +4,23 @@ import (
 	"encoding/binary"
 	"encoding/json"
 	"fmt"
+	"math"
+	"math/big"
 	"math/rand"
+	"net"
 	"path/filepath"
+	"sort"
 	"strings"
+	"sync"
+	"time"
 
 	"github.com/lianxiangcloud/linkchain/config"
 	"github.com/lianxiangcloud/linkchain/libs/common"
 	"github.com/lianxiangcloud/linkchain/libs/crypto"
+	dbm "github.com/lianxiangcloud/linkchain/libs/db"
+	"github.com/lianxiangcloud/linkchain/libs/log"
+	"github.com/lianxiangcloud/linkchain/libs/p2p"
+	pcmn "github.com/lianxiangcloud/linkchain/libs/p2p/common"
 	"github.com/lianxiangcloud/linkchain/state"
 	"github.com/lianxiangcloud/linkchain/types"
 
@@ -21,47 +31,130 @@ import (
 )
 
 // ---- binding of spec/Candidates (C05: "the next validator candidates" are a function of
-// the prior state and the block, whoever executes the block and however often) -----------
+// the prior state and the block, whoever executes the block, however often, and whatever
+// +2/3 commit for the block that node happens to hold) ----------------------------------
 
 type cItem struct {
 	K string `json:"k"`
 	P string `json:"p"`
 	F string `json:"f"`
 }
+
+// label of a step: exec = the block (evidence, class of its LastCommit hash) is executed by every replica;
+// commit = CommitBlock on replica R with a seen commit of class Seen
 type cAct struct {
-	Evs []cItem `json:"evs"`
+	Op       string  `json:"op"`
+	Evs      []cItem `json:"evs"`
+	Seed     string  `json:"seed"`
+	Election bool    `json:"election"`
+	R        string  `json:"r"`
+	Seen     string  `json:"seen"`
 }
-type cState struct {
+
+// what one replica holds (Candidates.tla, variable node)
+type cNode struct {
 	List   []string       `json:"list"`
 	Prod   map[string]int `json:"prod"`
 	Score  map[string]int `json:"score"`
+	Dep    map[string]int `json:"dep"`
+	Drawn  string         `json:"drawn"`
 	CScore map[string]int `json:"cscore"`
-	H      int            `json:"h"`
 }
+
+// the exported projection: a = the first replica of the commit order, z = the last one
+type cProj struct {
+	H     int      `json:"h"`
+	Open  bool     `json:"open"`
+	Seed  string   `json:"seed"`
+	Pc    int      `json:"pc"`
+	A     cNode    `json:"a"`
+	Z     cNode    `json:"z"`
+	AVals []string `json:"avals"`
+}
+
+// the constants of the model instance (printed once by the specification)
+type cConsts struct {
+	Period      int                 `json:"period"`
+	Pledge      map[string]int      `json:"pledge"`
+	InitDeposit int                 `json:"initDeposit"`
+	Order       []string            `json:"order"`
+	InitScore   map[string]int      `json:"initScore"`
+	MaxScore    int                 `json:"maxScore"`
+	Nume        int                 `json:"nume"`
+	Deno        int                 `json:"deno"`
+	Upper       int                 `json:"upper"`
+	Perm        map[string][]string `json:"perm"`
+	Replicas    []string            `json:"replicas"`
+	MaxH        int                 `json:"maxH"`
+}
+
+const nWhite = 4 // inner validators of the white list (voting power 100 each; candidates have 10)
 
 type candWorld struct {
-	keys  map[string]crypto.PrivKey
-	names map[string]string // address string -> model name
-	init  map[string]int64
-	order []string
+	k          cConsts
+	keys       map[string]crypto.PrivKey
+	names      map[string]string // address string -> model name
+	byAddr     map[string]crypto.PrivKey
+	registered []string // candidates in the order of the contract's "pubkeys" array
+	white      []crypto.PrivKey
+	addr       map[string]crypto.Address
 }
 
-func candSlotKey(pub crypto.PubKey) common.Hash {
-	key2 := "0x" + common.Bytes2Hex(pub.Bytes()) + string(rune(0))
+func sysObject(v interface{}) []byte { // 3 header bytes | json | \0, as the system contracts store objects
+	js, _ := json.Marshal(v)
+	val := append([]byte{1, 2, 3}, js...)
+	return append(val, 0)
+}
+
+func sysKey(key1, key2 string) common.Hash { // key1 | tagString | len16 | key2
 	lenBuf := make([]byte, 2)
 	binary.LittleEndian.PutUint16(lenBuf, uint16(len(key2)))
-	key := append([]byte("cand"), state.TagString)
+	key := append([]byte(key1), state.TagString)
 	key = append(key, lenBuf...)
 	key = append(key, key2...)
 	return crypto.Keccak256Hash(key)
 }
 
-func newCandWorld(initScores map[string]int64, order []string) *candWorld {
-	w := &candWorld{keys: map[string]crypto.PrivKey{}, names: map[string]string{}, init: initScores, order: order}
-	for _, n := range []string{"x", "y", "z"} {
-		k := crypto.GenPrivKeyEd25519FromSecret([]byte("verif candidate " + n))
-		w.keys[n] = k
-		w.names[k.PubKey().Address().String()] = n
+func sysStringArray(items []string) []byte { // tagArray | count16 | (tagString | len16 | item)*
+	out := []byte{state.TagArray, byte(len(items)), byte(len(items) >> 8)}
+	for _, it := range items {
+		out = append(out, state.TagString, byte(len(it)), byte(len(it)>>8))
+		out = append(out, it...)
+	}
+	return out
+}
+
+func pubName(pub crypto.PubKey) string { return "0x" + common.Bytes2Hex(pub.Bytes()) + string(rune(0)) }
+
+func candSlotKey(pub crypto.PubKey) common.Hash { return sysKey("cand", pubName(pub)) }
+
+func newCandWorld(k cConsts) *candWorld {
+	w := &candWorld{k: k, keys: map[string]crypto.PrivKey{}, names: map[string]string{}, byAddr: map[string]crypto.PrivKey{}, addr: map[string]crypto.Address{}}
+	w.registered = append(w.registered, k.Order...)
+	var rest []string
+	for n := range k.InitScore {
+		in := false
+		for _, o := range k.Order {
+			in = in || o == n
+		}
+		if !in {
+			rest = append(rest, n)
+		}
+	}
+	sort.Strings(rest)
+	w.registered = append(w.registered, rest...)
+	for _, n := range append(append([]string{}, w.registered...), "z") {
+		key := crypto.GenPrivKeyEd25519FromSecret([]byte("verif candidate " + n))
+		w.keys[n] = key
+		w.addr[n] = key.PubKey().Address()
+		w.names[key.PubKey().Address().String()] = n
+		w.byAddr[key.PubKey().Address().String()] = key
+	}
+	for i := 0; i < nWhite; i++ {
+		key := crypto.GenPrivKeyEd25519FromSecret([]byte(fmt.Sprintf("verif inner validator %d", i)))
+		w.white = append(w.white, key)
+		w.names[key.PubKey().Address().String()] = fmt.Sprintf("inner%d", i)
+		w.byAddr[key.PubKey().Address().String()] = key
 	}
 	return w
 }
@@ -70,17 +163,39 @@ func (w *candWorld) coinbase(n string) common.Address {
 	return common.BytesToAddress(crypto.Keccak256([]byte("coinbase " + n))[:20])
 }
 
+// genesisExtras: the Coefficient entry (election period, share of candidates that become validators), the white
+// list of inner validators, every registered candidate with its score, the pledges, and the stored candidate list.
 func (w *candWorld) genesisExtras() ([]appx.RawSlot, []*types.CandidateInOrder) {
 	var raw []appx.RawSlot
-	var cands []*types.CandidateInOrder
-	for _, n := range w.order {
+	raw = append(raw, appx.RawSlot{Addr: config.ContractCoefficientAddr, Key: crypto.Keccak256Hash([]byte("Coefficient")), Val: sysObject(state.CoefficientJSON{
+		VotePeriod: uint64(w.k.Period), VoteRate: types.VoteRate{Deno: w.k.Deno, Nume: w.k.Nume, UpperLimit: w.k.Upper},
+		CalRate: types.DefaultCalRate(), MaxScore: int64(w.k.MaxScore), UTXOFee: types.DefaultCoefficient().UTXOFee.String()})})
+	var wl []string
+	for i, key := range w.white {
+		pub := key.PubKey()
+		wl = append(wl, pubName(pub))
+		raw = append(raw, appx.RawSlot{Addr: config.ContractValidatorsAddr, Key: sysKey("Validator", pubName(pub)), Val: sysObject(state.ValidatorJSON{
+			PubKey: "0x" + common.Bytes2Hex(pub.Bytes()), CoinBase: w.coinbase(fmt.Sprintf("inner%d", i)), VotingPower: 100})})
+	}
+	raw = append(raw, appx.RawSlot{Addr: config.ContractValidatorsAddr, Key: crypto.Keccak256Hash([]byte("ValidatorList")), Val: sysStringArray(wl)})
+	var pk []string
+	for _, n := range w.registered {
 		pub := w.keys[n].PubKey()
-		js, _ := json.Marshal(state.CandidateJSON{PubKey: "0x" + common.Bytes2Hex(pub.Bytes()), CoinBase: w.coinbase(n), VotingPower: 10, Score: w.init[n]})
-		val := append([]byte{1, 2, 3}, js...)
-		val = append(val, 0)
-		raw = append(raw, appx.RawSlot{Addr: config.ContractCandidatesAddr, Key: candSlotKey(pub), Val: val})
+		pk = append(pk, pubName(pub))
+		raw = append(raw, appx.RawSlot{Addr: config.ContractCandidatesAddr, Key: candSlotKey(pub), Val: sysObject(state.CandidateJSON{
+			PubKey: "0x" + common.Bytes2Hex(pub.Bytes()), CoinBase: w.coinbase(n), VotingPower: 10, Score: int64(w.k.InitScore[n])})})
+		if p := w.k.Pledge[n]; p > 0 { // "electorsMap": tagObject | tagString | len16 | decimal wei \0
+			amount := new(big.Int).Mul(big.NewInt(int64(p)), big.NewInt(config.Ether)).String() + string(rune(0))
+			val := append([]byte{8, state.TagString, byte(len(amount)), byte(len(amount) >> 8)}, amount...)
+			raw = append(raw, appx.RawSlot{Addr: config.ContractPledgeAddr, Key: sysKey("electorsMap", w.coinbase(n).String()+string(rune(0))), Val: val})
+		}
+	}
+	raw = append(raw, appx.RawSlot{Addr: config.ContractCandidatesAddr, Key: crypto.Keccak256Hash([]byte("pubkeys")), Val: sysStringArray(pk)})
+	var cands []*types.CandidateInOrder
+	for _, n := range w.k.Order {
+		pub := w.keys[n].PubKey()
 		cands = append(cands, &types.CandidateInOrder{Candidate: types.Candidate{Address: pub.Address(), PubKey: pub, VotingPower: 10, CoinBase: w.coinbase(n)},
-			Score: w.init[n], Deposit: 1})
+			Score: int64(w.k.InitScore[n]), Deposit: int64(w.k.InitDeposit)})
 	}
 	return raw, cands
 }
@@ -104,30 +219,196 @@ func (w *candWorld) evidence(it cItem, h uint64, salt int) types.Evidence {
 	}
 }
 
-// observed candidate list of a replica at its current height, in model terms
-func (w *candWorld) observe(e *appx.Env) (cState, string) {
-	out := cState{Prod: map[string]int{}, Score: map[string]int{}, CScore: map[string]int{}, List: []string{}}
-	tr, err := e.BS.LoadTxsResult(e.App.Height())
-	if err != nil || tr == nil {
-		return out, fmt.Sprintf("no TxsResult at height %d: %v", e.App.Height(), err)
+// ---- the election, transcribed from its description (Keccak(hash, address) -> random number; rank =
+// (S*score/sum + D*deposit/max + R*rand/2^63) / (S+D+R); weighted draw without replacement from a math/rand
+// source salted with the first 8 bytes of the hash). Used to instantiate a class of hashes (find a commit whose
+// hash induces the order the model names) and as the shape oracle for the stored random numbers. -------------
+func (w *candWorld) election(hash common.Hash, cscore map[string]int) (order []string, rnd map[string]int64) {
+	type ent struct {
+		n    string
+		rank *big.Rat
 	}
-	raw := ""
+	rnd = map[string]int64{}
+	var es []ent
+	maxDep, sum := int64(1), int64(0)
+	for _, n := range w.registered {
+		if cscore[n] > 0 {
+			hh := crypto.Keccak256(hash[:], w.addr[n])
+			rnd[n] = int64(binary.BigEndian.Uint64(hh[:8]) & math.MaxInt64)
+			if d := int64(w.k.Pledge[n]); d > maxDep {
+				maxDep = d
+			}
+			sum += int64(cscore[n])
+			es = append(es, ent{n: n})
+		}
+	}
+	cr := types.DefaultCalRate()
+	tot := cr.Srate + cr.Drate + cr.Rrate
+	for i := range es {
+		n := es[i].n
+		r := new(big.Rat).Mul(big.NewRat(cr.Srate, tot), big.NewRat(int64(cscore[n]), sum))
+		r.Add(r, new(big.Rat).Mul(big.NewRat(cr.Drate, tot), big.NewRat(int64(w.k.Pledge[n]), maxDep)))
+		r.Add(r, new(big.Rat).Mul(big.NewRat(cr.Rrate, tot), big.NewRat(rnd[n], math.MaxInt64)))
+		es[i].rank = r
+	}
+	src := rand.New(rand.NewSource(int64(binary.BigEndian.Uint64(hash[:8]))))
+	for i := 0; i < len(es)-1; i++ {
+		x := new(big.Rat).SetFloat64(src.Float64())
+		total := new(big.Rat)
+		for _, e := range es[i:] {
+			total.Add(total, e.rank)
+		}
+		x.Mul(x, total)
+		acc, j := new(big.Rat), 0
+		for k, e := range es[i:] {
+			acc.Add(acc, e.rank)
+			if x.Cmp(acc) < 0 {
+				j = k
+				break
+			}
+		}
+		es[i], es[i+j] = es[i+j], es[i]
+	}
+	for _, e := range es {
+		order = append(order, e.n)
+	}
+	return
+}
+
+// order the model's class induces on the scored candidates
+func (w *candWorld) classOrder(class string, cscore map[string]int) []string {
+	out := []string{}
+	for _, n := range w.k.Perm[class] {
+		if cscore[n] > 0 {
+			out = append(out, n)
+		}
+	}
+	return out
+}
+
+// ---- commits: signed precommits of more than 2/3 of the voting power of the block's validator set --------
+type commitReq struct {
+	vset   *types.ValidatorSet
+	height uint64
+	bid    types.BlockID
+	lane   int              // every holder of a commit has its own lane: another absent validator, other vote times
+	want   []map[string]int // contract scores of the elections in which the hash must induce ...
+	order  [][]string       // ... this order (class instantiation); empty = any hash will do
+}
+
+// make returns a valid commit for the block; among the (unboundedly many: vote times are local clocks) valid
+// commits of its lane it returns the first whose hash is in the requested class.
+func (w *candWorld) makeCommit(q commitReq) (*types.Commit, int, error) {
+	n := q.vset.Size()
+	absent := -1 // lane 0 holds every precommit; the others miss one validator each (still above 2/3)
+	if q.lane > 0 {
+		absent = (q.lane - 1) % n
+		_, v := q.vset.GetByIndex(absent)
+		if (q.vset.TotalVotingPower()-v.VotingPower)*3 <= q.vset.TotalVotingPower()*2 {
+			absent = -1
+		}
+	}
+	votes := make([]*types.Vote, n)
+	first := -1
+	sign := func(i int, nanos int64) error {
+		addr, val := q.vset.GetByIndex(i)
+		key := w.byAddr[val.Address.String()]
+		if key == nil {
+			return fmt.Errorf("no key for validator %x", addr)
+		}
+		v := &types.Vote{ValidatorAddress: val.Address, ValidatorIndex: i, ValidatorSize: n, Height: q.height, Round: 0,
+			Timestamp: time.Unix(int64(appx.BlockTime(q.height)), nanos).UTC(), Type: types.VoteTypePrecommit, BlockID: q.bid}
+		sig, err := key.Sign(v.SignBytes(appx.ChainID))
+		if err != nil {
+			return err
+		}
+		v.Signature = sig
+		votes[i] = v
+		return nil
+	}
+	for i := 0; i < n; i++ {
+		if i == absent {
+			continue
+		}
+		if first < 0 {
+			first = i
+		}
+		if err := sign(i, int64(1000*(q.lane*n+i)+7)); err != nil {
+			return nil, 0, err
+		}
+	}
+	for trial := 0; trial < 20000; trial++ {
+		if trial > 0 { // another valid commit of the lane: the first signer's clock differs
+			if err := sign(first, int64(1000000*trial+1000*(q.lane*n+first)+7)); err != nil {
+				return nil, 0, err
+			}
+		}
+		cm := &types.Commit{BlockID: q.bid, Precommits: append([]*types.Vote{}, votes...)}
+		ok := true
+		for i := range q.order {
+			got, _ := w.election(cm.Hash(), q.want[i])
+			ok = ok && fmt.Sprint(got) == fmt.Sprint(q.order[i])
+		}
+		if ok {
+			if err := q.vset.VerifyCommit(appx.ChainID, q.bid, q.height, cm); err != nil {
+				return nil, trial, fmt.Errorf("the harness built an invalid commit: %v", err)
+			}
+			return cm, trial + 1, nil
+		}
+	}
+	return nil, 20000, fmt.Errorf("no commit of lane %d at height %d whose hash induces %v", q.lane, q.height, q.order)
+}
+
+// ---- observation --------------------------------------------------------------------------------------
+type candObs struct {
+	model cNode    // in model terms (names)
+	vals  []string // the elected part of the validators CommitBlock returned
+	rand  map[string]int64
+	full  string // every stored field of every entry + contract scores (what replicas must agree on)
+	valsS string // validators returned by CommitBlock and validators read back for the next height
+}
+
+func (w *candWorld) valString(vs []*types.Validator) (string, []string) {
+	s, elected := "", []string{}
+	for _, v := range vs {
+		n := w.names[v.Address.String()]
+		id := crypto.Keccak256([]byte(v.Address), v.PubKey.Bytes(), v.CoinBase[:])
+		s += fmt.Sprintf("[%s id=%x power=%d]", n, id[:4], v.VotingPower)
+		if !strings.HasPrefix(n, "inner") {
+			elected = append(elected, n)
+		}
+	}
+	return s, elected
+}
+
+func (w *candWorld) observe(e *appx.Env, returned []*types.Validator) (candObs, error) {
+	o := candObs{model: cNode{List: []string{}, Prod: map[string]int{}, Score: map[string]int{}, Dep: map[string]int{}, CScore: map[string]int{}}, rand: map[string]int64{}}
+	h := e.App.Height()
+	tr, err := e.BS.LoadTxsResult(h)
+	if err != nil || tr == nil {
+		return o, fmt.Errorf("no TxsResult at height %d: %v", h, err)
+	}
 	for _, c := range tr.Candidates {
 		n := w.names[c.Address.String()]
-		out.List = append(out.List, n)
-		out.Prod[n], out.Score[n] = c.ProduceInfo, int(c.Score)
-		raw += fmt.Sprintf("[%s prod=%d score=%d]", n, c.ProduceInfo, c.Score)
+		o.model.List = append(o.model.List, n)
+		o.model.Prod[n], o.model.Score[n], o.model.Dep[n] = c.ProduceInfo, int(c.Score), int(c.Deposit)
+		o.rand[n] = c.Rand
+		id := crypto.Keccak256([]byte(c.Address), c.PubKey.Bytes(), c.CoinBase[:]) // address, public key and coinbase of the entry
+		o.full += fmt.Sprintf("[%s id=%x power=%d prod=%d deposit=%d score=%d rand=%d rank=%d]", n, id[:4], c.VotingPower, c.ProduceInfo, c.Deposit, c.Score, c.Rand, c.Rank)
 	}
 	st := e.App.GetLatestStateDB()
-	for _, n := range w.order {
+	for _, n := range w.registered {
 		buff := st.GetState(config.ContractCandidatesAddr, candSlotKey(w.keys[n].PubKey()))
 		var cj state.CandidateJSON
 		if len(buff) > 4 && json.Unmarshal(buff[3:len(buff)-1], &cj) == nil {
-			out.CScore[n] = int(cj.Score)
-			raw += fmt.Sprintf("{%s contract=%d}", n, cj.Score)
+			o.model.CScore[n] = int(cj.Score)
+			o.full += fmt.Sprintf("{%s contract=%d punished@%d}", n, cj.Score, cj.PunishHeight)
 		}
 	}
-	return out, raw
+	ret, elected := w.valString(returned)
+	next, _ := w.valString(e.App.GetValidators(h))
+	o.vals, o.valsS = elected, "returned by CommitBlock: "+ret+" stored for the next height: "+next
+	return o, nil
 }
 
 func descEvs(a cAct) string {
@@ -145,23 +426,99 @@ func descEvs(a cAct) string {
 	return "[" + strings.Join(s, " ") + "]"
 }
 
-type candResult struct {
-	Blocks   int
-	Class    string
-	Mismatch string
-	Drift    string
+func modelString(n cNode, reg []string) string {
+	s := ""
+	for _, c := range n.List {
+		s += fmt.Sprintf("[%s prod=%d score=%d deposit=%d]", c, n.Prod[c], n.Score[c], n.Dep[c])
+	}
+	for _, c := range reg {
+		s += fmt.Sprintf("{%s contract=%d}", c, n.CScore[c])
+	}
+	return s
 }
 
-// candReplay runs one behaviour on three replicas that execute every block a different
-// number of times: the proposer (PreRunBlock + CheckBlock), a validator (CheckBlock) and a
-// validator that saw the block in two rounds (CheckBlock twice), in trie and flat mode.
+type candResult struct {
+	Blocks    int
+	Commits   int
+	Elections int // election heights committed by at least two replicas
+	Discrim   int // ... at which the election, seeded from the replicas' seen commits, would have differed
+	Trials    int // commits built while instantiating classes
+	Class     string
+	Mismatch  string
+	Drift     string
+}
+
+var candP2P struct {
+	once sync.Once
+	cm   *p2p.ConManager
+	err  error
+}
+
+// the election reports the candidates to the p2p connection manager: the application gets one (a switch
+// without listener, the plain bootstrap table; nothing is started, no sockets)
+func candConManager() (*p2p.ConManager, error) {
+	candP2P.once.Do(func() {
+		oldL, oldT := p2p.ListenerBindFunc, p2p.DefaultNewTableFunc
+		defer func() { p2p.ListenerBindFunc, p2p.DefaultNewTableFunc = oldL, oldT }()
+		p2p.ListenerBindFunc = func(types.NodeType, string, string, log.Logger) (net.Listener, *p2p.NetAddress, *net.UDPConn, bool) {
+			return nil, nil, nil, false
+		}
+		p2p.DefaultNewTableFunc = func(sw *p2p.Switch, seeds []*pcmn.Node) error { return sw.DefaultNewTable(seeds, false, false) }
+		sw, err := p2p.NewP2pManager(log.NewNopLogger(), crypto.GenPrivKeyEd25519FromSecret([]byte("verif p2p")), config.DefaultP2PConfig(), p2p.NodeInfo{}, nil, dbm.NewMemDB())
+		if err != nil {
+			candP2P.err = err
+			return
+		}
+		if candP2P.cm = sw.GetConManager(); candP2P.cm == nil {
+			candP2P.err = fmt.Errorf("the switch has no connection manager")
+		}
+	})
+	return candP2P.cm, candP2P.err
+}
+
+type candReplica struct {
+	*replica
+	abs      string // replica of the model
+	checks   int    // executions of the block by CheckBlock
+	fastSync bool
+}
+
+// a CommitBlock that waits for its seen commit (fast sync: the LastCommit of the following block)
+type deferredCommit struct {
+	blk    *types.Block
+	height uint64
+	act    cAct
+	evs    string
+	want   cNode
+	wantV  []string
+	cscore map[string]int
+	vset   *types.ValidatorSet
+	bid    types.BlockID
+	class  string
+}
+
+// candReplay runs one behaviour on four replicas that execute every block a different number of times and
+// commit it with different seen commits: the proposer (PreRunBlock + CheckBlock, trie), a validator (CheckBlock,
+// flat), a validator that saw the block in two rounds (CheckBlock twice, trie), and a node on the fast-sync path
+// (CheckBlock, then CommitBlock with the LastCommit of the FOLLOWING block, flat).
 func candReplay(g *mbt.Graph, path []int, dir string, rng *rand.Rand, w *candWorld) (res candResult) {
 	specs := []struct {
-		name   string
-		isTrie bool
-		checks int
-	}{{"proposer/trie", true, 1}, {"validator/flat/once", false, 1}, {"validator/trie/two-rounds", true, 2}}
-	var reps []*replica
+		name     string
+		isTrie   bool
+		checks   int
+		fastSync bool
+	}{{"proposer/trie", true, 1, false}, {"validator/flat/once", false, 1, false}, {"validator/trie/two-rounds", true, 2, false}, {"fast-sync/flat", false, 1, true}}
+	if len(w.k.Replicas) != len(specs) {
+		res.Class, res.Mismatch = "infra", fmt.Sprintf("the model has %d replicas, the binding %d", len(w.k.Replicas), len(specs))
+		return
+	}
+	cm, err := candConManager()
+	if err != nil {
+		res.Class, res.Mismatch = "infra", "p2p connection manager: "+err.Error()
+		return
+	}
+	var reps []*candReplica
+	byAbs := map[string]*candReplica{}
 	defer func() {
 		for _, r := range reps {
 			r.env.Stop()
@@ -175,156 +532,357 @@ func candReplay(g *mbt.Graph, path []int, dir string, rng *rand.Rand, w *candWor
 			res.Class, res.Mismatch = "infra", "genesis: "+err.Error()
 			return
 		}
-		e, err := appx.Boot(d, s.isTrie, nil)
+		mc := appx.MempoolConfig()
+		if i > 0 { // no transaction is ever offered to these pools: the (empty) signature cache is left out on all but the proposer
+			mc.CacheSize = 0
+		}
+		e, err := appx.Boot(d, s.isTrie, mc)
 		if err != nil {
 			res.Class, res.Mismatch = "infra", "boot: "+err.Error()
 			return
 		}
-		reps = append(reps, &replica{name: s.name, env: e, isTrie: s.isTrie})
+		e.App.SetConm(cm)
+		r := &candReplica{replica: &replica{name: s.name, env: e, isTrie: s.isTrie}, abs: w.k.Replicas[i], checks: s.checks, fastSync: s.fastSync}
+		reps = append(reps, r)
+		byAbs[r.abs] = r
 	}
 	P := reps[0]
-	nonce := uint64(0)
+	fail := func(class, format string, a ...interface{}) {
+		res.Class, res.Mismatch = class, fmt.Sprintf(format, a...)
+	}
+
+	// per height: what the replicas that have committed it hold (reference = the first one)
+	type held struct {
+		name   string
+		obs    candObs
+		digest blockDigest
+		whatIf string // the list an election seeded from this replica's seen commit would have stored
+	}
+	committed := map[uint64][]held{}
+	elected := map[uint64]bool{}
+	vsets := map[uint64]*types.ValidatorSet{0: types.NewValidatorSet(P.env.App.GetValidators(0))} // validators that sign block h+1
+	if vsets[0].Size() != nWhite+(len(w.k.Order)*w.k.Nume/w.k.Deno) {
+		fail("infra", "genesis validator set has %d members", vsets[0].Size())
+		return
+	}
+
+	// commitOn runs CommitBlock on one replica and compares with the replicas that already committed the height
+	commitOn := func(r *candReplica, b *types.Block, seen *types.Commit, d deferredCommit) bool {
+		h := d.height
+		vals, err := r.env.App.CommitBlock(b, b.MakePartSet(65536), seen, r.fastSync)
+		if err != nil {
+			fail("commit-failed", "height %d: %s cannot commit the accepted block: %v", h, r.name, err)
+			return false
+		}
+		res.Commits++
+		obs, err := w.observe(r.env, vals)
+		if err != nil {
+			fail("commit-failed", "height %d: %s: %v", h, r.name, err)
+			return false
+		}
+		me := held{name: r.name, obs: obs, digest: r.digestAt(h)}
+		if d.act.Election {
+			l, rn := w.election(seen.Hash(), d.cscore)
+			me.whatIf = fmt.Sprint(l, rn)
+		}
+		if prev := committed[h]; len(prev) > 0 {
+			ref := prev[0]
+			where := fmt.Sprintf("height %d evidence %s", h, d.evs)
+			if d.act.Election {
+				where += " (election)"
+			}
+			if obs.full != ref.obs.full {
+				fail("determinism/candidates-differ", "%s: the stored candidate list differs between %s %s and %s %s (each node committed the block with its own valid +2/3 commit)", where, ref.name, ref.obs.full, r.name, obs.full)
+				return false
+			}
+			if obs.valsS != ref.obs.valsS {
+				fail("determinism/next-validators-differ", "%s: the next validator set differs between %s %s and %s %s", where, ref.name, ref.obs.valsS, r.name, obs.valsS)
+				return false
+			}
+			if me.digest != ref.digest {
+				fail("determinism/replicas-disagree", "%s: stored results differ between %s %+v and %s %+v", where, ref.name, ref.digest, r.name, me.digest)
+				return false
+			}
+			if d.act.Election && !elected[h] {
+				elected[h] = true
+				res.Elections++
+			}
+		}
+		committed[h] = append(committed[h], me)
+		if d.act.Election && len(committed[h]) == len(reps) {
+			distinct := map[string]bool{}
+			for _, x := range committed[h] {
+				distinct[x.whatIf] = true
+			}
+			if len(distinct) > 1 {
+				res.Discrim++
+			}
+		}
+		if vsets[h] == nil {
+			vsets[h] = types.NewValidatorSet(vals)
+		}
+		// the transcription (shape): what the replica holds is the model's committed node
+		if res.Drift == "" {
+			got := modelString(obs.model, w.registered) + fmt.Sprint(" validators ", obs.vals)
+			want := modelString(d.want, w.registered) + fmt.Sprint(" validators ", d.wantV)
+			if got != want {
+				res.Drift = fmt.Sprintf("height %d evidence %s: %s holds %s, the specification says %s", h, d.evs, r.name, got, want)
+			} else if d.act.Election {
+				if _, rn := w.election(b.LastCommit.Hash(), d.cscore); fmt.Sprint(rn) != fmt.Sprint(obs.rand) {
+					res.Drift = fmt.Sprintf("height %d: random numbers of the elected list on %s are %v, Keccak(LastCommit hash, address) gives %v", h, r.name, obs.rand, rn)
+				}
+			}
+		}
+		return true
+	}
+
+	var (
+		cur      *types.Block // the open block (as built by the proposer)
+		curAct   cAct
+		curH     uint64
+		curBid   types.BlockID
+		curScore map[string]int // contract scores after the open block's evidence
+		pending  *deferredCommit
+		nonce    uint64
+	)
+	// the canonical commit of the previous block: LastCommit of the next block and seen commit of the fast-sync node
+	canonical := func(next *cAct, nextScore map[string]int) (*types.Commit, bool) {
+		if pending == nil {
+			return nil, true
+		}
+		q := commitReq{vset: pending.vset, height: pending.height, bid: pending.bid, lane: len(reps)}
+		if pending.act.Election { // the class the model gives the fast-sync node's seen commit
+			q.want, q.order = append(q.want, pending.cscore), append(q.order, w.classOrder(pending.class, pending.cscore))
+		}
+		if next != nil && next.Election { // the class of the next block's LastCommit hash
+			q.want, q.order = append(q.want, nextScore), append(q.order, w.classOrder(next.Seed, nextScore))
+		}
+		cmt, trials, err := w.makeCommit(q)
+		res.Trials += trials
+		if err != nil {
+			fail("infra", "%v", err)
+			return nil, false
+		}
+		return cmt, true
+	}
+	flush := func(cmt *types.Commit) bool {
+		if pending == nil {
+			return true
+		}
+		d := *pending
+		pending = nil
+		return commitOn(byAbs[d.act.R], d.blk, cmt, d)
+	}
+
 	for _, ei := range path {
 		var act cAct
-		var to cState
+		var to cProj
 		json.Unmarshal(g.Edges[ei].Act, &act)
 		json.Unmarshal(g.Edges[ei].ToSt, &to)
-		res.Blocks++
-		h := P.env.App.Height() + 1
-		var txs types.Txs
-		if rng.Intn(2) == 0 { // the block also moves value (the evidence must not depend on it)
-			txs = append(txs, payer.Transfer(nonce, common.BytesToAddress([]byte{0xc5, byte(h)}), units(1)))
-			nonce++
+		if res.Drift != "" && act.Op == "exec" {
+			break // the open block was committed and compared on every replica; later blocks would start from a state the model is not in
 		}
-		blk := P.env.MakeBlock(h, txs)
-		var evs []types.Evidence
-		for i, it := range act.Evs {
-			evs = append(evs, w.evidence(it, h, rng.Intn(6)+i))
-		}
-		if len(evs) > 0 {
-			blk.AddEvidence(evs)
-		}
-		blk.EvidenceHash = blk.Evidence.Hash()
-		preOK := true
-		func() {
-			defer func() {
-				if r := recover(); r != nil {
-					preOK = false
-				}
-			}()
-			P.env.App.PreRunBlock(blk)
-		}()
-		if !preOK {
-			res.Class, res.Mismatch = "determinism/proposer-cannot-build", fmt.Sprintf("height %d evidence %s: PreRunBlock panicked on a block with well-formed evidence", h, descEvs(act))
-			return
-		}
-		var verdicts []string
-		all := true
-		for ri, r := range reps {
-			for k := 0; k < specs[ri].checks; k++ {
-				b2, _, err := appx.Redecode(blk)
-				if err != nil {
-					res.Class, res.Mismatch = "infra", "re-decoding the block: "+err.Error()
+		switch act.Op {
+		case "exec":
+			res.Blocks++
+			h := P.env.App.Height() + 1
+			lc := &types.Commit{} // the first block carries the empty commit
+			if h > 1 {
+				if pending == nil {
+					fail("infra", "height %d: the previous block has no canonical commit (behaviour not block-aligned)", h)
 					return
 				}
-				ok := r.env.App.CheckBlock(b2)
-				verdicts = append(verdicts, fmt.Sprintf("%s#%d=%v", r.name, k+1, ok))
-				all = all && ok
-				if k == specs[ri].checks-1 && ok {
-					if err := r.env.Commit(b2); err != nil {
-						res.Class, res.Mismatch = "commit-failed", fmt.Sprintf("height %d: %s cannot commit the accepted block: %v", h, r.name, err)
-						return
-					}
+				var ok bool
+				if lc, ok = canonical(&act, to.A.CScore); !ok {
+					return
+				}
+				if !flush(lc) {
+					return
 				}
 			}
-		}
-		if !all {
-			res.Class = "determinism/proposer-block-rejected"
-			res.Mismatch = fmt.Sprintf("height %d evidence %s: a block built by the proposer path is not accepted by every execution: %v", h, descEvs(act), verdicts)
-			return
-		}
-		// every replica must have stored the same results, whatever its mode and however often it ran the block
-		var ref cState
-		var refRaw string
-		var refDigest blockDigest
-		for ri, r := range reps {
-			obs, raw := w.observe(r.env)
-			dg := r.digestAt(h)
-			if ri == 0 {
-				ref, refRaw, refDigest = obs, raw, dg
+			var txs types.Txs
+			if rng.Intn(2) == 0 { // the block also moves value (the evidence must not depend on it)
+				txs = append(txs, payer.Transfer(nonce, common.BytesToAddress([]byte{0xc5, byte(h)}), units(1)))
+				nonce++
+			}
+			blk := P.env.MakeBlock(h, txs)
+			blk.LastCommit = lc
+			blk.LastCommitHash = lc.Hash()
+			var evs []types.Evidence
+			for i, it := range act.Evs {
+				evs = append(evs, w.evidence(it, h, rng.Intn(6)+i))
+			}
+			if len(evs) > 0 {
+				blk.AddEvidence(evs)
+			}
+			blk.EvidenceHash = blk.Evidence.Hash()
+			preOK := true
+			func() {
+				defer func() {
+					if r := recover(); r != nil {
+						preOK = false
+					}
+				}()
+				P.env.App.PreRunBlock(blk)
+			}()
+			if !preOK {
+				fail("determinism/proposer-cannot-build", "height %d evidence %s: PreRunBlock panicked on a block with well-formed evidence", h, descEvs(act))
+				return
+			}
+			var verdicts []string
+			all := true
+			for _, r := range reps {
+				for k := 0; k < r.checks; k++ {
+					b2, _, err := appx.Redecode(blk)
+					if err != nil {
+						fail("infra", "re-decoding the block: %v", err)
+						return
+					}
+					if b2.LastCommit.Hash() != lc.Hash() {
+						fail("infra", "the LastCommit does not survive the block encoding")
+						return
+					}
+					ok := r.env.App.CheckBlock(b2)
+					verdicts = append(verdicts, fmt.Sprintf("%s#%d=%v", r.name, k+1, ok))
+					all = all && ok
+				}
+			}
+			if !all {
+				fail("determinism/proposer-block-rejected", "height %d evidence %s: a block built by the proposer path is not accepted by every execution: %v", h, descEvs(act), verdicts)
+				return
+			}
+			b2, ps, err := appx.Redecode(blk)
+			if err != nil {
+				fail("infra", "re-decoding the block: %v", err)
+				return
+			}
+			cur, curAct, curH, curScore = blk, act, h, to.A.CScore
+			curBid = types.BlockID{Hash: b2.Hash(), PartsHeader: ps.Header()}
+		case "commit":
+			r := byAbs[act.R]
+			if cur == nil || r == nil {
+				fail("infra", "commit step without an open block")
+				return
+			}
+			b2, _, err := appx.Redecode(cur)
+			if err != nil {
+				fail("infra", "re-decoding the block: %v", err)
+				return
+			}
+			d := deferredCommit{blk: b2, height: curH, act: curAct, evs: descEvs(curAct), want: to.A, wantV: to.AVals, cscore: curScore, vset: vsets[curH-1], bid: curBid, class: act.Seen}
+			d.act.R = act.R
+			if r.fastSync { // its seen commit is the LastCommit of the block that follows
+				pending = &d
 				continue
 			}
-			if fmt.Sprint(obs) != fmt.Sprint(ref) {
-				res.Class = "determinism/candidates-differ"
-				res.Mismatch = fmt.Sprintf("height %d evidence %s: the stored candidate list differs between %s %s and %s %s", h, descEvs(act), reps[0].name, refRaw, r.name, raw)
+			lane := 0
+			for i, x := range reps {
+				if x == r {
+					lane = i
+				}
+			}
+			q := commitReq{vset: d.vset, height: curH, bid: curBid, lane: lane}
+			if curAct.Election { // the class the model gives this replica's seen commit (what the election would make of it)
+				q.want, q.order = append(q.want, curScore), append(q.order, w.classOrder(act.Seen, curScore))
+			}
+			seen, trials, err := w.makeCommit(q)
+			res.Trials += trials
+			if err != nil {
+				fail("infra", "%v", err)
 				return
 			}
-			if dg != refDigest {
-				res.Class = "determinism/replicas-disagree"
-				res.Mismatch = fmt.Sprintf("height %d evidence %s: stored results differ between %s %+v and %s %+v", h, descEvs(act), reps[0].name, refDigest, r.name, dg)
+			if !commitOn(r, b2, seen, d) {
 				return
 			}
 		}
-		// the transcription (shape): the agreed list is the model's
-		want := cState{List: to.List, Prod: map[string]int{}, Score: map[string]int{}, CScore: map[string]int{}}
-		if want.List == nil {
-			want.List = []string{}
-		}
-		for _, n := range to.List {
-			want.Prod[n], want.Score[n] = to.Prod[n], to.Score[n]
-		}
-		for _, n := range w.order {
-			want.CScore[n] = to.CScore[n]
-		}
-		if fmt.Sprint(want) != fmt.Sprint(ref) && res.Drift == "" {
-			res.Drift = fmt.Sprintf("height %d evidence %s: all replicas agree on %s, the specification says %+v", h, descEvs(act), refRaw, want)
-			return // later steps would compare against a state the code is not in
+	}
+	// the last block's canonical commit (the fast-sync node learns it from the next proposer)
+	if pending != nil {
+		cmt, ok := canonical(nil, nil)
+		if !ok || !flush(cmt) {
+			return
 		}
 	}
 	return
 }
 
-// candidatesScenario model-checks spec/Candidates and replays its graph.
-func candidatesScenario(c *core.Ctx, base string) {
-	cfg, ecfg := "Candidates.cfg", "CandidatesExport.cfg"
-	if c.Thorough() {
-		cfg, ecfg = "CandidatesBig.cfg", "CandidatesExportBig.cfg"
-	}
-	res := c.TLC(tlc.Options{SpecDir: c.SpecDir("Candidates"), Module: "MC_Candidates", Config: cfg, Workers: 4, Timeout: c.MinutesT(5, 20)})
-	if res == nil {
-		return
-	}
-	if res.Violated != "" || !res.Finished {
-		c.Infra("Candidates model: %s\n%s", res.Describe(), res.Tail)
-		return
-	}
+// candExportReplay exports one instance of spec/Candidates (its invariants are checked on the way) and replays
+// behaviours of the graph until the time budget is used. ok=false: a verdict was recorded (violation or infra).
+func candExportReplay(c *core.Ctx, base, ecfg string, budget func(tlcWall float64) time.Duration) (stats map[string]interface{}, tot candResult, ok bool) {
+	started := time.Now()
 	ex := c.TLC(tlc.Options{SpecDir: c.SpecDir("Candidates"), Module: "MC_Candidates", Config: ecfg, Workers: 1, Timeout: c.MinutesT(5, 20)})
 	if ex == nil {
 		return
 	}
 	if ex.Violated != "" || !ex.Finished {
-		c.Infra("Candidates export: %s\n%s", ex.Describe(), ex.Tail)
+		c.Infra("Candidates export %s: %s\n%s", ecfg, ex.Describe(), ex.Tail)
+		return
+	}
+	var k struct {
+		C *cConsts `json:"consts"`
+	}
+	for _, l := range ex.Lines {
+		if strings.HasPrefix(l, `{"consts"`) {
+			json.Unmarshal([]byte(l), &k)
+			break
+		}
+	}
+	if k.C == nil || k.C.Period == 0 || len(k.C.Replicas) == 0 {
+		c.Infra("candidate export %s: the constants of the instance were not printed", ecfg)
 		return
 	}
 	g, err := mbt.Load(ex.Lines)
 	if err != nil {
-		c.Infra("candidate edges: %v", err)
+		c.Infra("candidate edges %s: %v", ecfg, err)
 		return
 	}
 	rng := rand.New(rand.NewSource(c.Seed*7919 + 5))
-	w := newCandWorld(map[string]int64{"x": 499, "y": 2}, []string{"x", "y"})
-	paths := g.Tour(0, rng)
-	allTours := len(paths)
-	if max := c.Pick(400, 6000); len(paths) > max {
-		rng.Shuffle(len(paths), func(i, j int) { paths[i], paths[j] = paths[j], paths[i] })
-		paths = paths[:max]
+	w := newCandWorld(*k.C)
+	// thorough: a tour that covers every edge of the graph; quick: seeded random walks. Every behaviour is continued
+	// by a random walk to the last height (all replicas commit every block; the election and the blocks after it
+	// are reached).
+	var paths [][]int
+	allTours := 0
+	if c.Thorough() {
+		paths = g.Tour(0, rng)
+		allTours = len(paths)
 	}
-	paths = append(paths, g.Walks(c.Pick(40, 600), 6, rng)...)
+	for i := 0; i < c.Pick(400, 600); i++ {
+		paths = append(paths, nil)
+	}
+	for i := range paths {
+		p := append([]int{}, paths[i]...)
+		cur := 0
+		if len(p) > 0 {
+			cur = g.Edges[p[len(p)-1]].To
+		}
+		for len(g.Out[cur]) > 0 {
+			ei := g.Out[cur][rng.Intn(len(g.Out[cur]))]
+			p = append(p, ei)
+			cur = g.Edges[ei].To
+		}
+		paths[i] = p
+	}
+	if c.Thorough() { // the time budget cuts the tail: walks and tour behaviours are mixed
+		rng.Shuffle(len(paths), func(i, j int) { paths[i], paths[j] = paths[j], paths[i] })
+	}
+	tlcWall := time.Since(started).Seconds()
+	limit := budget(tlcWall)
 	o := c.Out()
-	blocks, drifts := 0, 0
+	drifts, replayed := 0, 0
+	replayStart := time.Now()
+	ok = true
 	for pi, p := range paths {
+		if time.Since(replayStart) > limit {
+			break
+		}
 		r := candReplay(g, p, filepath.Join(base, fmt.Sprintf("cand%d", pi)), rng, w)
-		blocks += r.Blocks
+		replayed++
+		tot.Blocks += r.Blocks
+		tot.Commits += r.Commits
+		tot.Elections += r.Elections
+		tot.Discrim += r.Discrim
+		tot.Trials += r.Trials
 		o.Traces++
 		o.Evaluations += r.Blocks
 		o.Distinct++
@@ -335,17 +893,84 @@ func candidatesScenario(c *core.Ctx, base string) {
 		if r.Mismatch == "" {
 			continue
 		}
+		ok = false
 		if r.Class == "infra" {
 			c.Infra("candidates replay: %s", r.Mismatch)
-			return
+			break
 		}
 		var acts []json.RawMessage
 		for _, ei := range p {
 			acts = append(acts, g.Edges[ei].Act)
 		}
-		c.Violate(r.Class, r.Mismatch, map[string]interface{}{"spec": "Candidates", "behaviour": acts})
+		c.Violate(r.Class, r.Mismatch, map[string]interface{}{"spec": "Candidates", "config": ecfg, "behaviour": acts})
 		break
 	}
-	c.SetExtra("candidates", map[string]interface{}{"model_states": len(g.States), "model_edges": len(g.Edges), "behaviours": len(paths), "behaviours_in_full_tour": allTours, "blocks": blocks,
-		"replicas": "proposer/trie (PreRun+Check), validator/flat (Check), validator/trie (Check twice)"})
+	stats = map[string]interface{}{"config": ecfg, "model_states": len(g.States), "model_edges": len(g.Edges), "behaviours": replayed, "behaviours_planned": len(paths),
+		"behaviours_in_full_tour": allTours, "not_replayed_time_budget": len(paths) - replayed, "blocks": tot.Blocks, "commit_block_calls": tot.Commits,
+		"elections_compared": tot.Elections, "elections_at_which_the_seen_commits_would_disagree": tot.Discrim,
+		"commits_built_to_instantiate_hash_classes": tot.Trials, "vote_period": k.C.Period, "heights": k.C.MaxH,
+		"tlc_and_graph_wall_s": tlcWall, "replay_wall_s": time.Since(replayStart).Seconds()}
+	return
+}
+
+// candidatesScenario model-checks spec/Candidates and replays its graph.
+func candidatesScenario(c *core.Ctx, base string) {
+	started := time.Now()
+	cfg, ecfgs := "Candidates.cfg", []string{"CandidatesExport.cfg"}
+	if c.Thorough() {
+		// the second exported instance has an election at every second height: the second one starts from an elected list
+		cfg, ecfgs = "CandidatesBig.cfg", []string{"CandidatesExportBig.cfg", "CandidatesExportP2.cfg"}
+	}
+	// the design instance (more evidence per block, more heights than the exported one) and the what-if in which the
+	// election is seeded from the node's seen commit run beside the export
+	var design, whatIf *tlc.Result
+	var wg sync.WaitGroup
+	wg.Add(2)
+	go func() {
+		defer wg.Done()
+		design = c.TLC(tlc.Options{SpecDir: c.SpecDir("Candidates"), Module: "MC_Candidates", Config: cfg, Workers: c.Pick(2, 4), Timeout: c.MinutesT(5, 20), OnLine: func(string) {}})
+	}()
+	go func() {
+		defer wg.Done()
+		whatIf = c.TLC(tlc.Options{SpecDir: c.SpecDir("Candidates"), Module: "MC_Candidates", Config: "CandidatesSeenSeed.cfg", Workers: 1, Timeout: c.MinutesT(5, 10), OnLine: func(string) {}})
+	}()
+	var all []map[string]interface{}
+	elections, discrim := 0, 0
+	ok := true
+	for _, ecfg := range ecfgs {
+		// quick: the whole scenario stays below about 40 s
+		st, tot, good := candExportReplay(c, base, ecfg, func(tlcWall float64) time.Duration {
+			if c.Thorough() {
+				return 120 * time.Second
+			}
+			return time.Duration(math.Max(8, math.Min(22, 38-tlcWall)) * float64(time.Second))
+		})
+		if st != nil {
+			all = append(all, st)
+		}
+		elections += tot.Elections
+		discrim += tot.Discrim
+		if !good {
+			ok = false
+			break
+		}
+	}
+	wg.Wait()
+	if design != nil && (design.Violated != "" || !design.Finished) {
+		c.Infra("Candidates model: %s\n%s", design.Describe(), design.Tail)
+		ok = false
+	}
+	if whatIf != nil && whatIf.Violated != "ReplicasAgree" {
+		c.Infra("vacuous: the Candidates model with the election seeded from the seen commit does not violate ReplicasAgree: %s\n%s", whatIf.Describe(), whatIf.Tail)
+		ok = false
+	}
+	if ok && design != nil && whatIf != nil && (elections == 0 || discrim == 0) {
+		c.Infra("vacuous: %d elections replayed, at %d of them the replicas' seen commits would have given different lists", elections, discrim)
+	}
+	wi := ""
+	if whatIf != nil {
+		wi = whatIf.Violated
+	}
+	c.SetExtra("candidates", map[string]interface{}{"exports": all, "design_config": cfg, "what_if_seed_from_seen_commit_violates": wi, "total_wall_s": time.Since(started).Seconds(),
+		"replicas": "proposer/trie (PreRun+Check), validator/flat (Check), validator/trie (Check twice), fast-sync/flat (Check, CommitBlock with the next block's LastCommit); every replica commits every block with its own valid +2/3 commit"})
 }
